@@ -164,11 +164,13 @@ pub fn run(ctx: &Ctx) {
     ctx.assume("Kernel/KernelView carry a serde derive whose bound no type satisfies: they offer no serialisation and are not monitored");
     let builders = ser::all_builders();
     let nb = builders.len() as u64;
-    let seeds = ctx.tier.pick(4u64, 40u64);
+    let seeds = ctx.tier.pick(18u64, 72u64);
     let builders = &builders;
     ctx.family("round-trip", nb * seeds, |c| {
         let (name, build) = &builders[(c.idx % nb) as usize];
-        let seed: u64 = c.rng.gen();
+        // value kinds built from a small enumerated space (hostile parameter values, variants) get
+        // the instance number, so that the space is covered completely; the others a random seed
+        let seed: u64 = if name.contains("hostile") || name.contains("variants") || name.starts_with("error-") { c.idx / nb } else { c.rng.gen() };
         let subject = match guarded(|| build(seed)) {
             Ok(Ok(s)) => s,
             Ok(Err(e)) => return inconclusive(format!("{name}: {e}")),
